@@ -117,6 +117,16 @@ class Corpus:
             self.msgs[rid] = msg
         return rid, r, msg
 
+    def add_message(self, payload, msg, labelmsm=1, lbl=True, **meta):
+        """record built from a message object returned by the reader for the slice payload"""
+        rid = len(self.recs) + 1
+        r = decode_rec.record_of_message(rid, payload, msg, labelmsm)
+        r["lbl"] = bool(lbl)
+        self.recs.append(r)
+        meta["labelmsm"] = labelmsm
+        self.meta[rid] = meta
+        return rid, r
+
     def judge(self, shards=16):
         verdicts, results = decode_rec.judge(self.recs, self.tables, shards=shards)
         for r in results:
